@@ -2,12 +2,13 @@
 import sys, os
 sys.path.insert(0, os.path.join(os.path.dirname(os.path.abspath(__file__)), '..', '..', 'engine'))
 from symgo.server import Server
+from symgo.run import REPO
 
 M = 'github.com/lianxiangcloud/linkchain'
 
 
 def run(tier, workdir):
-    srv = Server(['./cmd/...', './node/...', './consensus/...', './types/...'])
+    srv = Server(['./cmd/...', './node/...', './consensus/...', './types/...'], repo=REPO)
     try:
         r = srv.req(op='callers', prefix=M, target='(*%s/types.FilePV).SignVoteWithoutSave' % M,
                     method='SignVoteWithoutSave')
